@@ -608,6 +608,14 @@ static void turn_deliver (const uint8_t *b, size_t n, const NiceAddress *from)
   if (r >= 1) {
     GString *t = g_string_new (NULL); peer_str (t, &fr);
     if (up_n++) g_string_append_c (up_s, ',');
+    if (m.length >= 20 && (buf[0] & 0xC0) == 0 && buf[4] == 0x21 && buf[5] == 0x12 && buf[6] == 0xA4 && buf[7] == 0x42)
+    {                               /* a STUN answer handed up as data: print with transaction id and MESSAGE-INTEGRITY zeroed */
+      size_t a = 20;
+      memset (buf + 8, 0, 12);
+      while (a + 4 <= m.length) { unsigned at = buf[a] << 8 | buf[a + 1], al = buf[a + 2] << 8 | buf[a + 3];
+        if (at == 0x0008 && al == 20 && a + 24 <= m.length) memset (buf + a + 4, 0, 20);
+        a += 4 + ((al + 3) & ~3u); }
+    }
     g_string_append_printf (up_s, "%s:", t->str); hex_append (up_s, buf, m.length); g_string_free (t, TRUE);
   }
   free (buf);
@@ -718,6 +726,7 @@ int main (void)
     out_reset ();
     if (!strcmp (w[0], "reset") && n == 1) { turn_teardown (); teardown (); use_real_base = 0; puts ("reset"); continue; }
     if (!strcmp (w[0], "turn")) { turn_op (n, w); continue; }
+    if (!strcmp (w[0], "sock") && n >= 2 && !strcmp (w[1], "turn")) { turn_op (n - 1, w + 1); continue; }
     if (strcmp (w[0], "sock") || n < 2) { puts ("bad-op"); continue; }
     if (!strcmp (w[1], "base") && n == 3) {
       use_real_base = !strcmp (w[2], "real"); puts ("ok"); continue;
